@@ -203,6 +203,7 @@ func main() {
 	pg := flag.Int("pg", 40, "number of page-buffer operation sequences (pg), followed by 2 concurrent cases (pgc)")
 	bigrd := flag.Int("bigrd", 1, "page-boundary reader suite (rd cases with 64 KiB..200 KB of key+value bytes): 0 none, 1 every size and codec once, 2 full cross product")
 	pgr := flag.Int("pgr", 30, "number of page-buffer sequences with ReadFrom and a digest after every operation (pgr)")
+	cc := flag.Int("cc", 4, "concurrent-producer rounds per GOMAXPROCS value (wc cases over slow peers, wp cases from concurrent goroutines); 0 = none")
 	flag.StringVar(&only, "only", "", "print only the cases of this op (wp, wl, wc, rd, pg, pgc)")
 	flag.Parse()
 	r := rand.New(rand.NewSource(*seed))
@@ -214,4 +215,5 @@ func main() {
 	pageCases(r, *pg) // after all other cases: their ids do not change
 	bigReaderCases(r, *bigrd)
 	pageRFCases(r, *pgr)
+	concurrentCases(r, *cc)
 }
